@@ -309,7 +309,7 @@ impl Property for P {
     }
     fn rule(&self) -> String {
         "Generated: (suite of 48, mode, ikmR, ikmS, psk>=1B, psk_id>=1B, info, RNG stream, 0..=6 messages, 0..=3 exports with L<=255*Nh); \
-         in 20% of the cases the first message is at a non-zero sequence position (byte-carry boundaries, log-uniform; hpke contexts placed through the hook); swept: all 48x4 suite/mode cells with a fixed script, every sequence byte-carry boundary x 3 AEADs, and P-256 sessions (3 KDFs x 4 modes x sealing/export-only) whose RNG delivers each committed golden ikm with a first DeriveKeyPair candidate >= n (ephemeral key on the counter-1 retry path), and every length of info (0..=1100), psk and psk_id (1..=600) and exporter context (0..=1100, multi-block L) per KDF; replayed: 6 verified RFC 9180 anchors and 243 golden vectors through hpke itself. \
+         in 20% of the cases the first message is at a non-zero sequence position (byte-carry boundaries, log-uniform; hpke contexts placed through the hook); swept: all 48x4 suite/mode cells with a fixed script, every sequence byte-carry boundary x 3 AEADs, and P-256 sessions (3 KDFs x 4 modes x sealing/export-only) whose RNG delivers each committed golden ikm with a first DeriveKeyPair candidate >= n (ephemeral key on the counter-1 retry path), and every length of info (0..=1100), psk and psk_id (1..=600) and exporter context (0..=1100, multi-block L) per KDF, plus ten lengths just above the chunk/page sizes 4 KiB..128 KiB for each; replayed: 6 verified RFC 9180 anchors and 243 golden vectors through hpke itself. \
          Oracle: independent RFC 9180 reference model (own HKDF, own curve arithmetic), hpke-as-sender and hpke-as-receiver; as a sender the reference sometimes chooses the ephemeral private key itself (1..3, n-1..n-3 on the NIST curves: enc is the generator or a small multiple of it). \
          Non-trivial: a non-Base mode, or >=2 messages (nonce increments), or non-empty info with non-empty aad, or a committed vector; distinct by case encoding."
             .into()
@@ -408,6 +408,19 @@ impl Property for P {
                 dense.push(Case::Session { sess: a, msgs: one_msg.clone(), exports: vec![], start: 0 });
                 let mut b = gen::cell_session(su, 3, 27);
                 b.psk_id = Bytes(gen::fill(l, 5, 270 + l as u64));
+                dense.push(Case::Session { sess: b, msgs: one_msg.clone(), exports: vec![], start: 0 });
+            }
+            // and just above every plausible chunk / page size up to 128 KiB
+            for (j, l) in [4095usize, 4097, 5000, 8193, 10000, 16385, 32769, 65537, 70001, 131073].into_iter().enumerate() {
+                let mut a = gen::cell_session(su, 0, 29);
+                a.info = Bytes(gen::fill(l, 5, 290 + l as u64));
+                dense.push(Case::Session { sess: a, msgs: one_msg.clone(), exports: vec![ExportReq { ctx: Bytes(gen::fill(l, 5, 291 + l as u64)), len: kdf.nh() + 9 }], start: 0 });
+                let mut b = gen::cell_session(su, if j % 2 == 0 { 1 } else { 3 }, 30);
+                if j % 3 == 0 {
+                    b.psk_id = Bytes(gen::fill(l, 5, 292 + l as u64));
+                } else {
+                    b.psk = Bytes(gen::fill(l, 5, 293 + l as u64));
+                }
                 dense.push(Case::Session { sess: b, msgs: one_msg.clone(), exports: vec![], start: 0 });
             }
             let mut from = 0usize;
